@@ -186,11 +186,12 @@ theorem authorize_never_diverges (a : Account) (resource : Path) (want : Nat) :
 theorem default_clause_unreachable (a : ReqAuth) (c : Creds) (h : parseCredentials a = some c) : c.method ≠ .other :=
   parseCredentials_method a c h
 
-/-- … which matters, because as the clause stands (regenerated flag `Gen.authDefaultReturns`), reaching it would
-run the inner handler as the zero user — and a HEAD request needs no privilege. Latent, not a violation. -/
-theorem default_clause_would_fall_through :
-    Gen.authDefaultReturns = false ∧
-    authenticateCreds {} { method := .other } = .inner {} true ∧
+/-- … which matters: whether the clause leaves the function is read from the source on every run
+(`Gen.authDefaultReturns`, today `false`). Without the `return`, reaching the clause would run the inner handler
+as the zero user after the 401 was written — and a HEAD request needs no privilege. Latent, not a violation
+(the statement holds either way; this theorem is stated so that it survives the repair). -/
+theorem default_clause_behaviour :
+    authenticateCreds {} { method := .other } = (if Gen.authDefaultReturns then .rejected else .inner {} true) ∧
     authorizeRequest "HEAD".toList "/kapacitor/v1/ping".toList {} = true := by
   decide
 
